@@ -22,15 +22,18 @@ Local Open Scope N_scope.
 
 Definition rows := list N.
 Definition entry := (path * rows)%type.
-Record state := { st_dir : fs; st_sum : list entry; st_num : Z }.
-Definition empty : state := {| st_dir := []; st_sum := []; st_num := 0%Z |}.
+(* st_part: None = no dataset has been written yet; Some b = the dataset is (b = true) / is not partitioned - what the pandas
+   metadata 'partition_columns' of _metadata records (fix 05c32a7 uses it when no row group is left to infer it from).
+   st_sch: the schema of the summary (an abstract id); a data file's content is modelled as  schema id :: row ids  *)
+Record state := { st_dir : fs; st_sum : list entry; st_num : Z; st_part : option bool; st_sch : N }.
+Definition empty : state := {| st_dir := []; st_sum := []; st_num := 0%Z; st_part := None; st_sch := 0 |}.
 
 Definition rgroup := list (path * rows).      (* one row group of new data: (partition directory, rows) *)
 
 Inductive skey := SKNone | SKPart | SKRows.   (* sort_key of write_row_groups: none / partition directory / num_rows *)
 
 Inductive op :=
-| OWrite (rgs : list rgroup)                               (* write(dir, df, file_scheme='hive', partition_on=...) into an empty directory *)
+| OWrite (sch : N) (rgs : list rgroup)                     (* write(dir, df, file_scheme='hive', partition_on=...) into an empty directory; sch = the frame's schema *)
 | OAppend (rgs : list rgroup)                              (* write(..., append=True) *)
 | OOverwrite (rgs : list rgroup)                           (* write(..., append='overwrite') *)
 | ORemove (sel : list nat) (sort_pnames : bool)            (* pf.remove_row_groups([pf.row_groups[i] for i in sel], sort_pnames=...) *)
@@ -81,7 +84,8 @@ Fixpoint new_entries (off : N) (rgs : list rgroup) : list entry :=
   | g :: r => map (fun e => (join (fst e) (part_name off), snd e)) g ++ new_entries (off + 1) r
   end.
 
-Definition put_files (es : list entry) (d : fs) : fs := fold_left (fun s e => set_file (fst e) (snd e) s) es d.
+(* make_part_file(f, df, fmd.schema, fmd=fmd): every part file carries the SUMMARY's schema *)
+Definition put_files (sch : N) (es : list entry) (d : fs) : fs := fold_left (fun s e => set_file (fst e) (sch :: snd e) s) es d.
 
 Definition total (sum : list entry) : Z := fold_left (fun z e => (z + Z.of_nat (length (snd e)))%Z) sum 0%Z.
 
@@ -128,7 +132,8 @@ Definition sort_pnames_fixed (s : state) : option state :=
     | Some d1 =>
       match rename_all (map (fun ip => (tmp_name (fst ip) (snd ip), final_name (fst ip) (snd ip))) rn) d1 with
       | None => None
-      | Some d2 => Some {| st_dir := d2; st_sum := map (relabel rn) (st_sum s); st_num := st_num s |}
+      | Some d2 => Some {| st_dir := d2; st_sum := map (relabel rn) (st_sum s); st_num := st_num s;
+                           st_part := st_part s; st_sch := st_sch s |}
       end
     end
   end.
@@ -170,7 +175,7 @@ Definition sort_pnames_old (s : state) : option state :=
       | Some d2 =>
         Some {| st_dir := d2;
                 st_sum := fold_left (fun sm ip => set_nth_path (N.to_nat (fst ip)) (final_name (fst ip) (snd ip)) sm) rn (st_sum s);
-                st_num := st_num s |}
+                st_num := st_num s; st_part := st_part s; st_sch := st_sch s |}
       end
     end
   end.
@@ -184,10 +189,11 @@ Section Step.
   Definition partitioned (rgs : list rgroup) : bool :=
     existsb (fun g => existsb (fun e => match fst e with [] => false | _ => true end) g) rgs.
 
-  (* pf.cats is inferred from the referenced paths: a dataset without row groups has no partition columns,
-     and new data carrying them is refused (writer.write: partition_on != pf.cats; api.write_row_groups: columns) *)
+  (* the partition columns of the dataset: from the referenced paths or, when no row group is left, from the pandas metadata
+     (ParquetFile.partition_names); new data must be partitioned the same way (writer.write: partition_on != ...;
+     api.write_row_groups: column check).  No dataset yet: ParquetFile(...) fails. *)
   Definition cats_known (s : state) (rgs : list rgroup) : bool :=
-    match st_sum s with [] => negb (partitioned rgs) | _ => true end.
+    match st_part s with Some b => Bool.eqb b (partitioned rgs) | None => false end.
 
   Definition remove_at (sel : list nat) (sum : list entry) : list entry :=
     map snd (filter (fun ie => negb (existsb (Nat.eqb (fst ie)) sel)) (combine (seq 0 (length sum)) sum)).
@@ -204,7 +210,8 @@ Section Step.
     | Some off =>
       let es := new_entries off rgs in
       let sum := isort le (st_sum s ++ es) in
-      Some {| st_dir := put_files es (st_dir s); st_sum := sum; st_num := total sum |}
+      Some {| st_dir := put_files (st_sch s) es (st_dir s); st_sum := sum; st_num := total sum;
+              st_part := st_part s; st_sch := st_sch s |}
     end.
 
   Definition first_index_of (old : list entry) (e : entry) : N :=
@@ -212,12 +219,13 @@ Section Step.
 
   Definition step (s : state) (o : op) : option state :=
     match o with
-    | OWrite rgs =>
-        match st_dir s, st_sum s with
-        | [], [] =>
+    | OWrite sch rgs =>
+        match st_part s, st_dir s, st_sum s with
+        | None, [], [] =>
           let es := new_entries 0 rgs in
-          Some {| st_dir := put_files es []; st_sum := es; st_num := total es |}
-        | _, _ => None
+          Some {| st_dir := put_files sch es []; st_sum := es; st_num := total es;
+                  st_part := Some (partitioned rgs); st_sch := sch |}
+        | _, _, _ => None
         end
     | OAppend rgs =>
         if cats_known s rgs then add_rgs s rgs (fun _ _ => true) else None
@@ -229,7 +237,7 @@ Section Step.
           end
         else None
     | OOverwrite rgs =>
-        if partitioned rgs && (match st_sum s with [] => false | _ => true end) then
+        if partitioned rgs && (match st_part s with Some true => true | _ => false end) then
           let old := st_sum s in
           match add_rgs s rgs (fun x y => first_index_of old x <=? first_index_of old y) with
           | None => None
@@ -238,13 +246,17 @@ Section Step.
             let gone := filter (fun e => mem_p (dir_of (fst e)) newdirs) old in
             let keep := filter (fun e => negb (mem_p (fst e) (map fst gone))) (st_sum s1) in
             sortp {| st_dir := drop_files (map fst gone) (st_dir s1); st_sum := keep;
-                     st_num := (st_num s1 - total gone)%Z |}
+                     st_num := (st_num s1 - total gone)%Z; st_part := st_part s1; st_sch := st_sch s1 |}
           end
         else None
     | ORemove sel sp =>
-        let gone := selected sel (st_sum s) in
-        maybe_sortp sp {| st_dir := drop_files (map fst gone) (st_dir s); st_sum := remove_at sel (st_sum s);
-                          st_num := (st_num s - total gone)%Z |}
+        match st_part s with
+        | None => None                                  (* no dataset: ParquetFile(...) fails *)
+        | Some _ =>
+          let gone := selected sel (st_sum s) in
+          maybe_sortp sp {| st_dir := drop_files (map fst gone) (st_dir s); st_sum := remove_at sel (st_sum s);
+                            st_num := (st_num s - total gone)%Z; st_part := st_part s; st_sch := st_sch s |}
+        end
     end.
 
   (* a refused operation leaves the dataset as it was *)
@@ -255,12 +267,13 @@ End Step.
 (* ---- what a fresh open reads -------------------------------------------------------------------
    row group by row group: the file named by the summary; Some rows when it holds exactly the rows
    the row group was written with, None otherwise (missing file, or another file's content under that name) *)
-Definition read_entry (d : fs) (e : entry) : option rows :=
+Definition read_entry (d : fs) (sch : N) (e : entry) : option rows :=
   match lookup (fst e) d with
-  | Some r => if bytes_eqb r (snd e) then Some r else None
-  | None => None
+  | Some (c :: r) => if (c =? sch) && bytes_eqb r (snd e) then Some r else None      (* the file's schema is the summary's, and its rows the stated ones *)
+  | _ => None
   end.
-Definition read (s : state) : list (path * option rows) := map (fun e => (dir_of (fst e), read_entry (st_dir s) e)) (st_sum s).
+Definition read (s : state) : list (path * option rows) :=
+  map (fun e => (dir_of (fst e), read_entry (st_dir s) (st_sch s) e)) (st_sum s).
 
 (* ---- the plain model ---------------------------------------------------------------------------- *)
 Definition sstate := list (path * rows).          (* (partition directory, rows) in row-group order *)
@@ -273,7 +286,7 @@ Definition sfirst_index_of (old : sstate) (g : path * rows) : N :=
 
 Definition spec_step (a : sstate) (o : op) : option sstate :=
   match o with
-  | OWrite rgs => match a with [] => Some (flat rgs) | _ => None end
+  | OWrite _ rgs => match a with [] => Some (flat rgs) | _ => None end
   | OAppend rgs => Some (a ++ flat rgs)
   | OWriteRgs rgs k _ => Some (isort (key_le k (fun g : path * rows => fst g) (fun g => N.of_nat (length (snd g)))) (a ++ flat rgs))
   | OOverwrite rgs =>
@@ -287,17 +300,18 @@ Definition spec_step (a : sstate) (o : op) : option sstate :=
 Definition well_named (p : path) : Prop := exists d n, p = join d (part_name n) /\ existsb (N.eqb 10) d = false /\ existsb (N.eqb slash) (part_name n) = false.
 
 Definition inv (s : state) : Prop :=
-  (forall e, In e (st_sum s) -> lookup (fst e) (st_dir s) = Some (snd e))          (* referenced file exists, holds the stated rows *)
+  (forall e, In e (st_sum s) -> lookup (fst e) (st_dir s) = Some (st_sch s :: snd e))   (* referenced file exists, has the summary's schema, holds the stated rows *)
   /\ (forall p, lookup p (st_dir s) <> None -> In p (map fst (st_sum s)))           (* no unreferenced file *)
   /\ NoDup (map fst (st_sum s))
   /\ st_num s = total (st_sum s)
-  /\ (forall e, In e (st_sum s) -> well_named (fst e)).
+  /\ (forall e, In e (st_sum s) -> well_named (fst e))
+  /\ (st_part s = None -> st_sum s = []).
 
 (* decidable version evaluated by the extracted model on every state of a history *)
 Fixpoint nodup_p (l : list path) : bool :=
   match l with [] => true | p :: r => negb (mem_p p r) && nodup_p r end.
 Definition check_inv (s : state) : bool :=
-  forallb (fun e => match lookup (fst e) (st_dir s) with Some r => bytes_eqb r (snd e) | None => false end) (st_sum s)
+  forallb (fun e => match lookup (fst e) (st_dir s) with Some r => bytes_eqb r (st_sch s :: snd e) | None => false end) (st_sum s)
   && forallb (fun f => mem_p (fst f) (map fst (st_sum s))) (st_dir s)
   && nodup_p (map fst (st_sum s))
   && Z.eqb (st_num s) (total (st_sum s)).
